@@ -402,15 +402,14 @@ for L in (1, 2, 3, 4, 5):
        "Atom::parse on every ASCII string of %d bytes: negation, kind markers, escaped markers, escaped trailing dollar and the text handed to new_inner follow the documented grammar (new_inner replaced by a stub recording its arguments)" % L,
        unwind=8, bound="all ASCII strings of exactly %d bytes (parse inspects at most the first two and last two bytes)" % L, cost=3, stubs=PARSE_STUB)
 NI_STUBS = CHAR_STUBS + [("crate::chars::is_upper_case", "crate::chars::verif_charmodel::model_is_upper")]
-for pos in (0, 1, 2):
-    for case in (1, 2):
-        for esc in (True, False):
-            if not esc and pos != 0:
-                continue
-            UC("c14-new-inner-unicode-p%d-c%d-%s" % (pos, case, "esc" if esc else "noesc"), "pattern",
-               "new_inner_unicode::<%d,%d,true,%s>()" % (pos, case, "true" if esc else "false"), {"C14": "quick"}, "bounded", ["pattern::Atom::new_inner (code-point branch)"],
-               "Atom::new_inner on 3 characters (two symbolic ASCII + one of {ä Ä ß é É à µ ς ſ Σ σ} at position %d), CaseMatching::%s, Normalization::Smart, escape_whitespace=%s: needle == unescaped text (folded under Ignore), smart case / smart normalisation flags as documented" % (pos, {1: "Ignore", 2: "Smart"}[case], esc),
-               unwind=12, bound="3 characters, one non-ASCII from the model domain; unicode-segmentation feature OFF; char-level functions = model table", cost=8, timeout=1500, stubs=NI_STUBS, features=NOSEG)
+LEADNAME = {0xC3: "ä Ä ß é É à", 0xCF: "ς σ", 0xC5: "ſ", 0xC2: "µ", 0xCE: "Σ"}
+TAILNAME = {0: "backslash space", 1: "backslash x", 2: "x backslash", 3: "x y", 4: "space backslash", 5: "X y"}
+for (lead, tail, case, esc) in ((0xC3, 0, 1, True), (0xC3, 0, 2, True), (0xC3, 1, 2, True), (0xC3, 2, 2, True), (0xC3, 4, 1, True), (0xC3, 3, 2, False), (0xC3, 5, 2, True),
+                                (0xCF, 3, 2, True), (0xCF, 0, 1, True), (0xC5, 3, 2, True), (0xC2, 1, 1, True), (0xCE, 5, 2, False)):
+    UC("c14-new-inner-unicode-%x-t%d-c%d-%s" % (lead, tail, case, "esc" if esc else "noesc"), "pattern",
+       "new_inner_unicode::<%d,%d,%d,true,%s>()" % (lead, tail, case, "true" if esc else "false"), {"C14": "quick"}, "bounded", ["pattern::Atom::new_inner (code-point branch)"],
+       "Atom::new_inner on [one of {%s}] + \"%s\", CaseMatching::%s, Normalization::Smart, escape_whitespace=%s: needle == unescaped text (folded under Ignore), smart case / smart normalisation flags as documented" % (LEADNAME[lead], TAILNAME[tail], {1: "Ignore", 2: "Smart"}[case], esc),
+       unwind=12, bound="3 characters: a symbolic non-ASCII character of the model domain + a concrete two-character escape shape; unicode-segmentation feature OFF; char-level functions = model table", cost=5, timeout=1500, stubs=NI_STUBS, features=NOSEG)
 for L in (2, 3, 4):
     UC("c14-split-atoms-%d" % L, "pattern", "split_atoms::<%d>()" % L, {"C14": "quick" if L <= 3 else "thorough"}, "bounded", ["pattern::pattern_atoms"],
        "pattern_atoms on every ASCII string of %d bytes: split at every whitespace not preceded by a backslash and nowhere else; pieces are consecutive slices" % L,
